@@ -81,6 +81,13 @@ inductive Clause where
   | vphF6 | vphAccepts (b : Option Binding) | vphRefuses
   | nameMirror (impl : Bytes) (key : Option Bytes) (exact : Option Bytes) | metaMirror (impl exact : Bytes)
   | e2eF6 | e2eAgree | e2eReached
+  -- `seq` records (the session over time): a tool the client has listed under its current definition
+  | seqStaleLook | seqLostLook       -- lookupTool answers with a superseded definition (preflight-F32) / does not find it
+  | seqStaleCall | seqLostCall | seqAgree   -- the call is refused: headers of a superseded definition (preflight-F32) / none / other
+  | seqRefusedExact                  -- … although it carries exactly the headers the server's current definition demands
+  | seqLegacy                        -- a legacy session's call is refused
+  -- a request naming an unimplemented version ≥ 2026-07-28 in header and `_meta` is not answered -32022 / -32602 (C06 and C12)
+  | unsupportedVersion (status : Nat) (code : Option Int) (handled : Nat)
   | reached (status : Nat)
   | dispatchSound (p : Precond)
   | httpF6
@@ -453,5 +460,52 @@ def httpMonitorAll (c : B64) (r : Req) (ins : List MsgIn) (o : HttpObs) : Option
       (if modelObs (unrepairedReq r mi) (verdict c (unrepairedReq r mi)) o == o then some .f31 else some v)
     else some v
   | v, _ => v
+
+/-! ## the unsupported-version answer (shared with C06)
+
+C06: "Requests carrying the 2026-07-28 per-request metadata are served without a handshake only if that metadata is complete
+and names a supported version; otherwise they are answered with invalid-params (-32602) or unsupported-version (-32022,
+listing the supported versions)".  C12: "a declared protocol version must be supported … violations receive the mandated
+status".  The HTTP front door lets a version header it does not know through when it is not older than 2026-07-28, so that
+the session can give that structured answer (a peer implementing a newer revision learns what to fall back to). -/
+
+/-- The single request of the body is a call whose `Mcp-Protocol-Version` header and `_meta` agree on a version that this
+SDK does not implement and that is not older than 2026-07-28 (streamable handlers). -/
+def unsupportedNew (r : Req) : Bool :=
+  r.method == .post && r.kind != .sse &&
+  (match soleMsg r with
+   | some m => m.isReq && m.isCall && r.version != [] && r.version == m.metaVersion &&
+       bLe spec20260728 r.version && !specSupported.contains r.version
+   | none => false)
+
+/-- The answers the property names: JSON-RPC -32022 (the harness prints another code when the error data does not list
+supported versions) or -32602 (incomplete metadata) — as an HTTP 400 with a JSON body (SEP-2575 status mapping), or, on an
+established stateful session, as the answer on the POST's own stream (HTTP 200). -/
+def uvAllowed : List (Nat × Option Int) :=
+  [(400, some (-32022)), (400, some (-32602)), (200, some (-32022)), (200, some (-32602))]
+
+/-- Such a request that violates no other documented precondition gets one of these answers and runs no handler. -/
+def uvMonitor (c : B64) (r : Req) (o : HttpObs) : Option Clause :=
+  if unsupportedNew r && (violations c r).isEmpty && !(uvAllowed.contains (o.status, o.code) && o.handled == 0) then
+    some (.unsupportedVersion o.status o.code o.handled)
+  else none
+
+/-- The observation the model allows, exact on the unsupported-version rows: the request passes the HTTP gates
+(`dispatched`), the session refuses it with -32022 (or -32602 — which of the two is the session gate's business, C06) and
+no handler runs. -/
+def modelObsV (r : Req) (o : Outcome) (ob : HttpObs) : HttpObs :=
+  match o with
+  | .dispatched _ =>
+    if unsupportedNew r then
+      -- which of the allowed answers is the session's business (C06, transport): echoed if it is one, else 400 / -32022
+      { status := if uvAllowed.contains (ob.status, ob.code) then ob.status else 400,
+        code := if uvAllowed.contains (ob.status, ob.code) then ob.code else some (-32022),
+        allow := none, reached := ob.reached, handled := 0, disp := 1, names := [] }
+    else modelObs r o ob
+  | _ => modelObs r o ob
+
+/-- All monitors of a whole request; the unsupported-version clause (shared with C06) is reported first. -/
+def httpMonitorAllV (c : B64) (r : Req) (ins : List MsgIn) (o : HttpObs) : Option Clause :=
+  (uvMonitor c r o).orElse (fun _ => httpMonitorAll c r ins o)
 
 end Preflight
